@@ -568,7 +568,8 @@ theorem addEdgesLoop_new {d : Defects} {s : Inst} {room : Nat} {es : List InEdge
 theorem addEdgesLoop_removed {d : Defects} {s : Inst} {room : Nat} {es : List InEdge} {edges : List EdgeRow}
     {x : EdgeRow} (hsig : ∀ e ∈ es, e.sigOk = true)
     (hx : x ∈ edges) (hgone : x ∉ (addEdgesLoop d s room es edges).1) :
-    ∃ e ∈ es, edgeKeyEq e.row x = true ∧ ∃ p, edgeKeyEq e.row p = true ∧ EdgeOkD d s room (some p) e := by
+    ∃ e ∈ es, edgeKeyEq e.row x = true ∧ ∃ p, edgeKeyEq e.row p = true ∧ EdgeOkD d s room (some p) e ∧
+      (p ∈ edges ∨ ∃ e' ∈ es, e'.row = p) := by
   induction es generalizing edges with
   | nil => exact absurd hx hgone
   | cons e rest ih =>
@@ -577,8 +578,13 @@ theorem addEdgesLoop_removed {d : Defects} {s : Inst} {room : Nat} {es : List In
     split at hgone
     · next hacc =>
       by_cases hw : x ∈ writeEdge edges e.row
-      · obtain ⟨e', he', h⟩ := ih hsr hw hgone
-        exact ⟨e', List.mem_cons_of_mem _ he', h⟩
+      · obtain ⟨e', he', hk, p, hp, hok, hm⟩ := ih hsr hw hgone
+        refine ⟨e', List.mem_cons_of_mem _ he', hk, p, hp, hok, ?_⟩
+        rcases hm with hm | ⟨e'', he'', hm⟩
+        · rcases mem_writeEdge hm with hm | hm
+          · exact Or.inl hm
+          · exact Or.inr ⟨e, List.mem_cons_self, hm.symm⟩
+        · exact Or.inr ⟨e'', List.mem_cons_of_mem _ he'', hm⟩
       · have hk := writeEdge_removed hx hw
         have hok := edgeAccepted_sound (hsig e List.mem_cons_self) hacc
         cases hf : edges.find? (edgeKeyEq e.row) with
@@ -587,9 +593,12 @@ theorem addEdgesLoop_removed {d : Defects} {s : Inst} {room : Nat} {es : List In
           rw [hk] at this; exact absurd rfl this
         | some p =>
           rw [hf] at hok
-          exact ⟨e, List.mem_cons_self, hk, p, (find?_keyEq hf).2, hok⟩
-    · obtain ⟨e', he', h⟩ := ih hsr hx hgone
-      exact ⟨e', List.mem_cons_of_mem _ he', h⟩
+          exact ⟨e, List.mem_cons_self, hk, p, (find?_keyEq hf).2, hok, Or.inl (find?_keyEq hf).1⟩
+    · obtain ⟨e', he', hk, p, hp, hok, hm⟩ := ih hsr hx hgone
+      refine ⟨e', List.mem_cons_of_mem _ he', hk, p, hp, hok, ?_⟩
+      rcases hm with hm | ⟨e'', he'', hm⟩
+      · exact Or.inl hm
+      · exact Or.inr ⟨e'', List.mem_cons_of_mem _ he'', hm⟩
 
 /-! ### deletion records -/
 
@@ -605,19 +614,16 @@ theorem mem_dedupDel {recs : List InNodeDel} {r : InNodeDel} (h : r ∈ dedupDel
       · exact List.mem_cons_of_mem _ (ih h)
 
 theorem nodeDelAccepted_sound {d : Defects} {s : Inst} {room : Nat} {r : InNodeDel}
-    (hs : r.sigOk = true) (h : nodeDelAccepted d s room r.entry = true) : NodeDelOkD d s room r := by
+    (hs : r.sigOk = true) (hroom : d.delRoomUnchecked = false → r.entry.room = room)
+    (h : nodeDelAccepted d s r.entry = true) : NodeDelOkD d s room r := by
   unfold nodeDelAccepted at h
-  simp only [Bool.and_eq_true, Bool.or_eq_true, decide_eq_true_eq] at h
-  obtain ⟨⟨⟨⟨hk, hauth⟩, hr⟩, he⟩, hcan⟩ := h
-  refine ⟨hs, ?_, hk, fun hd => authGate (by simpa using hauth) hd, ?_, canIn_iff.mp hcan⟩
-  · intro hd
-    rcases hr with h | h
-    · rw [hd] at h; cases h
-    · exact h
-  · intro hd l hl
-    rcases he with h | h
-    · rw [hd] at h; cases h
-    · rw [hl] at h; simpa using h
+  simp only [Bool.and_eq_true, Bool.or_eq_true] at h
+  obtain ⟨⟨⟨hk, hauth⟩, he⟩, hcan⟩ := h
+  refine ⟨hs, hroom, hk, fun hd => authGate (by simpa using hauth) hd, ?_, canIn_iff.mp hcan⟩
+  intro hd l hl
+  rcases he with h | h
+  · rw [hd] at h; cases h
+  · rw [hl] at h; simpa using h
 
 theorem foldl_applyNodeDel {L : List InNodeDel} {s : Inst} :
     let s' := L.foldl (fun st r => applyNodeDel st r.entry) s
@@ -657,26 +663,26 @@ theorem foldl_applyNodeDel {L : List InNodeDel} {s : Inst} :
 /-- the node deletion stage: rows only disappear, and only under an accepted record naming their
     room and id; the log only gains accepted records; nothing else changes -/
 theorem deleteNodes_sound {d : Defects} {s : Inst} {room : Nat} {recs : List InNodeDel}
-    (hsig : ∀ r ∈ recs, r.sigOk = true) :
-    let s' := deleteNodes d s room recs
+    (hsig : ∀ r ∈ recs, r.sigOk = true) (hroom : ∀ r ∈ recs, d.delRoomUnchecked = false → r.entry.room = room) :
+    let s' := deleteNodes d s recs
     s'.rooms = s.rooms ∧ s'.edges = s.edges ∧ s'.edgeLog = s.edgeLog ∧
     (∀ x ∈ s'.nodes, x ∈ s.nodes) ∧
     (∀ x ∈ s.nodes, x ∉ s'.nodes → ∃ r ∈ recs, x.room = some r.entry.room ∧ x.id = r.entry.id ∧ NodeDelOkD d s room r) ∧
     (∀ t ∈ s'.nodeLog, t ∉ s.nodeLog → ∃ r ∈ recs, r.entry = t ∧ NodeDelOkD d s room r) := by
   intro s'
   obtain ⟨h1, h2, h3, h4, h5⟩ := foldl_applyNodeDel
-    (L := (dedupDel recs).filter fun r => nodeDelAccepted d s room r.entry) (s := s)
-  have hacc : ∀ r ∈ (dedupDel recs).filter (fun r => nodeDelAccepted d s room r.entry),
+    (L := (dedupDel recs).filter fun r => nodeDelAccepted d s r.entry) (s := s)
+  have hacc : ∀ r ∈ (dedupDel recs).filter (fun r => nodeDelAccepted d s r.entry),
       r ∈ recs ∧ NodeDelOkD d s room r := by
     intro r hr
     obtain ⟨hr1, hr2⟩ := List.mem_filter.mp hr
     have := mem_dedupDel hr1
-    exact ⟨this, nodeDelAccepted_sound (hsig r this) hr2⟩
+    exact ⟨this, nodeDelAccepted_sound (hsig r this) (hroom r this) hr2⟩
   refine ⟨h1, h2, h3, fun x hx => ((h4 x).mp hx).1, ?_, ?_⟩
   · intro x hx hgone
-    have : ¬ ∀ r ∈ (dedupDel recs).filter (fun r => nodeDelAccepted d s room r.entry),
+    have : ¬ ∀ r ∈ (dedupDel recs).filter (fun r => nodeDelAccepted d s r.entry),
         ¬(x.room = some r.entry.room ∧ x.id = r.entry.id) := fun hall => hgone ((h4 x).mpr ⟨hx, hall⟩)
-    have : ∃ r ∈ (dedupDel recs).filter (fun r => nodeDelAccepted d s room r.entry),
+    have : ∃ r ∈ (dedupDel recs).filter (fun r => nodeDelAccepted d s r.entry),
         x.room = some r.entry.room ∧ x.id = r.entry.id := by
       apply Classical.byContradiction
       intro hne
@@ -691,21 +697,18 @@ theorem deleteNodes_sound {d : Defects} {s : Inst} {room : Nat} {recs : List InN
     · exact ⟨r, (hacc r hr).1, rfl, (hacc r hr).2⟩
 
 theorem edgeDelAccepted_sound {d : Defects} {s : Inst} {room : Nat} {r : InEdgeDel}
-    (hs : r.sigOk = true) (h : edgeDelAccepted d s room r.entry = true) : EdgeDelOkD d s room r := by
+    (hs : r.sigOk = true) (hroom : d.delRoomUnchecked = false → r.entry.room = room)
+    (h : edgeDelAccepted d s r.entry = true) : EdgeDelOkD d s room r := by
   unfold edgeDelAccepted at h
-  simp only [Bool.and_eq_true, Bool.or_eq_true, decide_eq_true_eq] at h
-  obtain ⟨⟨⟨⟨hk, hauth⟩, hr⟩, he⟩, hcan⟩ := h
-  refine ⟨hs, ?_, hk, fun hd => authGate (by simpa using hauth) hd, ?_, canIn_iff.mp hcan⟩
-  · intro hd
-    rcases hr with h | h
-    · rw [hd] at h; cases h
-    · exact h
-  · intro hd l hl
-    rcases he with h | h
-    · rw [hd] at h; cases h
-    · unfold edgeDelSourceOk at h
-      rw [hl] at h
-      simpa using h
+  simp only [Bool.and_eq_true, Bool.or_eq_true] at h
+  obtain ⟨⟨⟨hk, hauth⟩, he⟩, hcan⟩ := h
+  refine ⟨hs, hroom, hk, fun hd => authGate (by simpa using hauth) hd, ?_, canIn_iff.mp hcan⟩
+  intro hd l hl
+  rcases he with h | h
+  · rw [hd] at h; cases h
+  · unfold edgeDelSourceOk at h
+    rw [hl] at h
+    simpa using h
 
 theorem foldl_applyEdgeDel {L : List InEdgeDel} {s : Inst} :
     let s' := L.foldl (fun st r => applyEdgeDel st r.entry) s
@@ -734,23 +737,23 @@ theorem foldl_applyEdgeDel {L : List InEdgeDel} {s : Inst} :
 
 /-- the reference deletion stage -/
 theorem deleteEdges_sound {d : Defects} {s : Inst} {room : Nat} {recs : List InEdgeDel}
-    (hsig : ∀ r ∈ recs, r.sigOk = true) :
-    let s' := deleteEdges d s room recs
+    (hsig : ∀ r ∈ recs, r.sigOk = true) (hroom : ∀ r ∈ recs, d.delRoomUnchecked = false → r.entry.room = room) :
+    let s' := deleteEdges d s recs
     s'.rooms = s.rooms ∧ s'.nodes = s.nodes ∧ s'.nodeLog = s.nodeLog ∧
     (∀ x ∈ s'.edges, x ∈ s.edges) ∧
     (∀ x ∈ s.edges, x ∉ s'.edges → ∃ r ∈ recs, edgeMatches r.entry x = true ∧ EdgeDelOkD d s room r) ∧
     (∀ t ∈ s'.edgeLog, t ∉ s.edgeLog → ∃ r ∈ recs, r.entry = t ∧ EdgeDelOkD d s room r) := by
   intro s'
   obtain ⟨h1, h2, h3, h4, h5⟩ := foldl_applyEdgeDel
-    (L := recs.filter fun r => edgeDelAccepted d s room r.entry) (s := s)
-  have hacc : ∀ r ∈ recs.filter (fun r => edgeDelAccepted d s room r.entry),
+    (L := recs.filter fun r => edgeDelAccepted d s r.entry) (s := s)
+  have hacc : ∀ r ∈ recs.filter (fun r => edgeDelAccepted d s r.entry),
       r ∈ recs ∧ EdgeDelOkD d s room r := by
     intro r hr
     obtain ⟨hr1, hr2⟩ := List.mem_filter.mp hr
-    exact ⟨hr1, edgeDelAccepted_sound (hsig r hr1) hr2⟩
+    exact ⟨hr1, edgeDelAccepted_sound (hsig r hr1) (hroom r hr1) hr2⟩
   refine ⟨h1, h2, h3, fun x hx => ((h4 x).mp hx).1, ?_, ?_⟩
   · intro x hx hgone
-    have : ∃ r ∈ recs.filter (fun r => edgeDelAccepted d s room r.entry), edgeMatches r.entry x = true := by
+    have : ∃ r ∈ recs.filter (fun r => edgeDelAccepted d s r.entry), edgeMatches r.entry x = true := by
       apply Classical.byContradiction
       intro hne
       apply hgone
@@ -765,20 +768,36 @@ theorem deleteEdges_sound {d : Defects} {s : Inst} {room : Nat} {recs : List InE
     · exact absurd h hnew
     · exact ⟨r, (hacc r hr).1, rfl, (hacc r hr).2⟩
 
+theorem keepEdgeDels_sub {d : Defects} {room : Nat} {l : List InEdgeDel} {r : InEdgeDel}
+    (h : r ∈ keepEdgeDels d room l) : r ∈ l ∧ (d.delRoomUnchecked = false → r.entry.room = room) := by
+  unfold keepEdgeDels at h
+  split at h
+  · next hd => exact ⟨h, fun hf => by rw [hf] at hd; cases hd⟩
+  · obtain ⟨h1, h2⟩ := List.mem_filter.mp h
+    exact ⟨h1, fun _ => by simpa using h2⟩
+
+theorem keepNodeDels_sub {d : Defects} {room : Nat} {l : List InNodeDel} {r : InNodeDel}
+    (h : r ∈ keepNodeDels d room l) : r ∈ l ∧ (d.delRoomUnchecked = false → r.entry.room = room) := by
+  unfold keepNodeDels at h
+  split at h
+  · next hd => exact ⟨h, fun hf => by rw [hf] at hd; cases hd⟩
+  · obtain ⟨h1, h2⟩ := List.mem_filter.mp h
+    exact ⟨h1, fun _ => by simpa using h2⟩
+
 /-! ### fields a stage does not touch; unique ids through a whole day -/
 
-theorem deleteEdges_fields (d : Defects) (s : Inst) (room : Nat) (recs : List InEdgeDel) :
-    (deleteEdges d s room recs).rooms = s.rooms ∧ (deleteEdges d s room recs).nodes = s.nodes ∧
-    (deleteEdges d s room recs).nodeLog = s.nodeLog := by
+theorem deleteEdges_fields (d : Defects) (s : Inst) (recs : List InEdgeDel) :
+    (deleteEdges d s recs).rooms = s.rooms ∧ (deleteEdges d s recs).nodes = s.nodes ∧
+    (deleteEdges d s recs).nodeLog = s.nodeLog := by
   obtain ⟨h1, h2, h3, _, _⟩ := foldl_applyEdgeDel
-    (L := recs.filter fun r => edgeDelAccepted d s room r.entry) (s := s)
+    (L := recs.filter fun r => edgeDelAccepted d s r.entry) (s := s)
   exact ⟨h1, h2, h3⟩
 
-theorem deleteNodes_fields (d : Defects) (s : Inst) (room : Nat) (recs : List InNodeDel) :
-    (deleteNodes d s room recs).rooms = s.rooms ∧ (deleteNodes d s room recs).edges = s.edges ∧
-    (deleteNodes d s room recs).edgeLog = s.edgeLog := by
+theorem deleteNodes_fields (d : Defects) (s : Inst) (recs : List InNodeDel) :
+    (deleteNodes d s recs).rooms = s.rooms ∧ (deleteNodes d s recs).edges = s.edges ∧
+    (deleteNodes d s recs).edgeLog = s.edgeLog := by
   obtain ⟨h1, h2, h3, _, _⟩ := foldl_applyNodeDel
-    (L := (dedupDel recs).filter fun r => nodeDelAccepted d s room r.entry) (s := s)
+    (L := (dedupDel recs).filter fun r => nodeDelAccepted d s r.entry) (s := s)
   exact ⟨h1, h2, h3⟩
 
 theorem foldl_applyNodeDel_sublist {L : List InNodeDel} {s : Inst} :
@@ -789,8 +808,8 @@ theorem foldl_applyNodeDel_sublist {L : List InNodeDel} {s : Inst} :
     simp only [List.foldl_cons]
     exact List.Sublist.trans ih (by simp only [applyNodeDel]; exact List.filter_sublist)
 
-theorem deleteNodes_nodup {d : Defects} {s : Inst} {room : Nat} {recs : List InNodeDel}
-    (hn : NodupIds s.nodes) : NodupIds (deleteNodes d s room recs).nodes :=
+theorem deleteNodes_nodup {d : Defects} {s : Inst} {recs : List InNodeDel}
+    (hn : NodupIds s.nodes) : NodupIds (deleteNodes d s recs).nodes :=
   List.Nodup.sublist (List.Sublist.map _ foldl_applyNodeDel_sublist) hn
 
 theorem edgeStage_fields (d : Defects) (s : Inst) (room : Nat) (es : List InEdge) :
@@ -802,20 +821,20 @@ theorem edgeStage_fields (d : Defects) (s : Inst) (room : Nat) (es : List InEdge
     reached when every record of the earlier stages carried a valid signature -/
 theorem syncDay_cases (d : Defects) (s : Inst) (room : Nat) (b : Batch) :
     (syncDay d s room b).1 = s ∨
-    ((∀ r ∈ b.edgeDels, r.sigOk = true) ∧ (syncDay d s room b).1 = st1 d s room b) ∨
-    ((∀ r ∈ b.edgeDels, r.sigOk = true) ∧ (∀ r ∈ b.nodeDels, r.sigOk = true) ∧
+    ((∀ r ∈ keepEdgeDels d room b.edgeDels, r.sigOk = true) ∧ (syncDay d s room b).1 = st1 d s room b) ∨
+    ((∀ r ∈ keepEdgeDels d room b.edgeDels, r.sigOk = true) ∧ (∀ r ∈ keepNodeDels d room b.nodeDels, r.sigOk = true) ∧
       (syncDay d s room b).1 = st2 d s room b) ∨
-    ((∀ r ∈ b.edgeDels, r.sigOk = true) ∧ (∀ r ∈ b.nodeDels, r.sigOk = true) ∧
+    ((∀ r ∈ keepEdgeDels d room b.edgeDels, r.sigOk = true) ∧ (∀ r ∈ keepNodeDels d room b.nodeDels, r.sigOk = true) ∧
       (∀ n ∈ b.nodes, n.sigOk = true) ∧ (syncDay d s room b).1 = st3 d s room b) ∨
-    ((∀ r ∈ b.edgeDels, r.sigOk = true) ∧ (∀ r ∈ b.nodeDels, r.sigOk = true) ∧
+    ((∀ r ∈ keepEdgeDels d room b.edgeDels, r.sigOk = true) ∧ (∀ r ∈ keepNodeDels d room b.nodeDels, r.sigOk = true) ∧
       (∀ n ∈ b.nodes, n.sigOk = true) ∧ (∀ e ∈ b.edges, e.sigOk = true) ∧
       (syncDay d s room b).1 = (edgeStage d (st3 d s room b) room b.edges).1) := by
   unfold syncDay
-  by_cases h1 : b.edgeDels.all (·.sigOk) = true
-  · have h1' : ∀ r ∈ b.edgeDels, r.sigOk = true := by simpa using h1
+  by_cases h1 : (keepEdgeDels d room b.edgeDels).all (·.sigOk) = true
+  · have h1' : ∀ r ∈ keepEdgeDels d room b.edgeDels, r.sigOk = true := by simpa using h1
     simp only [h1, Bool.not_true, Bool.false_eq_true, if_false]
-    by_cases h2 : b.nodeDels.all (·.sigOk) = true
-    · have h2' : ∀ r ∈ b.nodeDels, r.sigOk = true := by simpa using h2
+    by_cases h2 : (keepNodeDels d room b.nodeDels).all (·.sigOk) = true
+    · have h2' : ∀ r ∈ keepNodeDels d room b.nodeDels, r.sigOk = true := by simpa using h2
       simp only [h2, Bool.not_true, Bool.false_eq_true, if_false]
       unfold syncNodesEdges
       split
@@ -842,12 +861,12 @@ theorem syncDay_cases (d : Defects) (s : Inst) (room : Nat) (b : Batch) :
 
 theorem st1_fields (d : Defects) (s : Inst) (room : Nat) (b : Batch) :
     (st1 d s room b).rooms = s.rooms ∧ (st1 d s room b).nodes = s.nodes ∧ (st1 d s room b).nodeLog = s.nodeLog :=
-  deleteEdges_fields d s room b.edgeDels
+  deleteEdges_fields d s (keepEdgeDels d room b.edgeDels)
 
 theorem st2_fields (d : Defects) (s : Inst) (room : Nat) (b : Batch) :
     (st2 d s room b).rooms = s.rooms ∧ (st2 d s room b).edges = (st1 d s room b).edges ∧
     (st2 d s room b).edgeLog = (st1 d s room b).edgeLog := by
-  obtain ⟨h1, h2, h3⟩ := deleteNodes_fields d (st1 d s room b) room b.nodeDels
+  obtain ⟨h1, h2, h3⟩ := deleteNodes_fields d (st1 d s room b) (keepNodeDels d room b.nodeDels)
   exact ⟨h1.trans (st1_fields d s room b).1, h2, h3⟩
 
 theorem st3_fields (d : Defects) (s : Inst) (room : Nat) (b : Batch) :
@@ -993,120 +1012,149 @@ theorem EdgeDelOkD.none_ok {s : Inst} {room : Nat} {r : InEdgeDel} (h : EdgeDelO
     EdgeDelOk s room r :=
   ⟨h.sig, h.inRoom rfl, h.known, h.data rfl, h.source rfl, h.right⟩
 
-/-! ### guards that exclude the shapes the code does not check -/
+/-! ### guards that exclude the shapes a given setting of the switches does not check
 
-/-- the local row it overwrites (if any) has the same entity -/
-def nodeGuard (s : Inst) (n : InNode) : Bool :=
-  !authEnt n.row.ent &&
-  match localRow s.nodes n.row.id with
-  | some l => l.ent = n.row.ent
-  | none => true
+Every clause of a guard is switched by the defect it makes up for: a switch that is off contributes `true`,
+so the guard of `Defects.none` is `true` and the guard of `Defects.asImplemented` shrinks with every repair. -/
 
-/-- the guard that was needed before /repo 37a7f03 and e73c9e7: moreover the row does not rely on an
-    absent JSON and the overwritten row is in a room -/
-def nodeGuardBeforeFixes (s : Inst) (n : InNode) : Bool :=
-  !authEnt n.row.ent && (!n.jsonAbsent || n.conforms) &&
+/-- not a row of a room definition; not relying on an absent JSON; the local row it overwrites (if any)
+    has the same entity and is in a room — each clause only while the code does not check it itself -/
+def nodeGuardD (d : Defects) (s : Inst) (n : InNode) : Bool :=
+  (!d.authEntityUnchecked || !authEnt n.row.ent) &&
+  (!d.jsonAbsentUnchecked || !n.jsonAbsent || n.conforms) &&
   match localRow s.nodes n.row.id with
-  | some l => l.ent = n.row.ent && l.room.isSome
+  | some l => (!d.entityChangeUnchecked || l.ent = n.row.ent) && (!d.roomlessReplaceUnchecked || l.room.isSome)
   | none => true
 
 /-- the source row is a local row of the synchronised room and of the named entity; every
     reference with the same source, label and target (stored or in the batch) has the same author -/
-def edgeGuard (s : Inst) (room : Nat) (others : List EdgeRow) (e : InEdge) : Bool :=
-  !authEnt e.row.srcEnt && edgeSourceOk s room e.row && others.all fun x => !edgeKeyEq e.row x || x.key = e.row.key
+def edgeGuardD (d : Defects) (s : Inst) (room : Nat) (others : List EdgeRow) (e : InEdge) : Bool :=
+  (!d.authEntityUnchecked || !authEnt e.row.srcEnt) &&
+  (!d.edgeSourceUnchecked || edgeSourceOk s room e.row) &&
+  (!d.edgeReplaceUnchecked || others.all fun x => !edgeKeyEq e.row x || x.key = e.row.key)
 
-def nodeDelGuard (s : Inst) (room : Nat) (r : InNodeDel) : Bool :=
-  !authEnt r.entry.ent && r.entry.room = room &&
-  match localRow s.nodes r.entry.id with
-  | some l => l.ent = r.entry.ent
-  | none => true
+def nodeDelGuardD (d : Defects) (s : Inst) (room : Nat) (r : InNodeDel) : Bool :=
+  (!d.authEntityUnchecked || !authEnt r.entry.ent) &&
+  (!d.delRoomUnchecked || r.entry.room = room) &&
+  (!d.delEntityUnchecked ||
+    match localRow s.nodes r.entry.id with
+    | some l => l.ent = r.entry.ent
+    | none => true)
 
-def edgeDelGuard (s : Inst) (room : Nat) (r : InEdgeDel) : Bool :=
-  !authEnt r.entry.srcEnt && r.entry.room = room && edgeDelSourceOk s r.entry
+def edgeDelGuardD (d : Defects) (s : Inst) (room : Nat) (r : InEdgeDel) : Bool :=
+  (!d.authEntityUnchecked || !authEnt r.entry.srcEnt) &&
+  (!d.delRoomUnchecked || r.entry.room = room) &&
+  (!d.edgeDelSourceUnchecked || edgeDelSourceOk s r.entry)
+
+theorem sw_or {b c : Bool} (h : (!b || c) = true) : b = false ∨ c = true := by
+  cases b <;> simp_all
 
 theorem NodeOkD.guarded {d : Defects} {s : Inst} {room : Nat} {n : InNode} (h : NodeOkD d s room n)
-    (hj : d.jsonAbsentUnchecked = false) (hr : d.roomlessReplaceUnchecked = false)
-    (g : nodeGuard s n = true) : NodeOk s room n := by
-  unfold nodeGuard at g
-  simp only [Bool.and_eq_true, Bool.not_eq_true'] at g
-  obtain ⟨ga, g⟩ := g
-  refine ⟨h.sig, h.inRoom, h.known, ga, ?_, h.small, h.right, ?_, ?_⟩
-  · rcases h.conforms with c | ⟨c, _⟩
+    (g : nodeGuardD d s n = true) : NodeOk s room n := by
+  unfold nodeGuardD at g
+  simp only [Bool.and_eq_true] at g
+  obtain ⟨⟨ga, gj⟩, gl⟩ := g
+  refine ⟨h.sig, h.inRoom, h.known, ?_, ?_, h.small, h.right, ?_, ?_⟩
+  · rcases sw_or ga with ga | ga
+    · exact h.data ga
+    · simpa using ga
+  · rcases h.conforms with c | ⟨c, ja⟩
     · exact c
-    · rw [hj] at c; cases c
+    · rw [c, ja] at gj; simpa using gj
   · intro l hl
-    rw [hl] at g
-    simpa using g
+    rw [hl] at gl
+    simp only [Bool.and_eq_true] at gl
+    rcases sw_or gl.1 with g1 | g1
+    · exact h.sameEntity g1 l hl
+    · simpa using g1
   · intro l hl
+    rw [hl] at gl
+    simp only [Bool.and_eq_true] at gl
     cases hroom : l.room with
-    | none => exact absurd hroom ((h.oldRoom l hl).1 hr)
+    | none =>
+      rcases sw_or gl.2 with g2 | g2
+      · exact absurd hroom ((h.oldRoom l hl).1 g2)
+      · rw [hroom] at g2; cases g2
     | some r' => exact ⟨r', rfl, (h.oldRoom l hl).2 r' hroom⟩
 
-theorem NodeOkD.guardedBeforeFixes {d : Defects} {s : Inst} {room : Nat} {n : InNode} (h : NodeOkD d s room n)
-    (g : nodeGuardBeforeFixes s n = true) : NodeOk s room n := by
-  unfold nodeGuardBeforeFixes at g
-  simp only [Bool.and_eq_true, Bool.or_eq_true, Bool.not_eq_true'] at g
-  obtain ⟨⟨ga, g1⟩, g2⟩ := g
-  refine ⟨h.sig, h.inRoom, h.known, ga, ?_, h.small, h.right, ?_, ?_⟩
-  · rcases h.conforms with c | ⟨_, c⟩
-    · exact c
-    · rcases g1 with g1 | g1
-      · rw [c] at g1; cases g1
-      · exact g1
-  · intro l hl
-    have := g2; rw [hl] at this
-    simp only [Bool.and_eq_true, decide_eq_true_eq] at this
-    exact this.1
-  · intro l hl
-    have := g2; rw [hl] at this
-    simp only [Bool.and_eq_true, decide_eq_true_eq] at this
-    cases hr : l.room with
-    | none => rw [hr] at this; exact absurd this.2 (by simp)
-    | some r' => exact ⟨r', rfl, (h.oldRoom l hl).2 r' hr⟩
-
 theorem NodeDelOkD.guarded {d : Defects} {s : Inst} {room : Nat} {r : InNodeDel} (h : NodeDelOkD d s room r)
-    (g : nodeDelGuard s room r = true) : NodeDelOk s room r := by
-  unfold nodeDelGuard at g
-  simp only [Bool.and_eq_true, decide_eq_true_eq, Bool.not_eq_true'] at g
-  refine ⟨h.sig, g.1.2, h.known, g.1.1, ?_, h.right⟩
-  intro l hl
-  have := g.2; rw [hl] at this
-  simpa using this
+    (g : nodeDelGuardD d s room r = true) : NodeDelOk s room r := by
+  unfold nodeDelGuardD at g
+  simp only [Bool.and_eq_true] at g
+  obtain ⟨⟨ga, gr⟩, ge⟩ := g
+  refine ⟨h.sig, ?_, h.known, ?_, ?_, h.right⟩
+  · rcases sw_or gr with gr | gr
+    · exact h.inRoom gr
+    · simpa using gr
+  · rcases sw_or ga with ga | ga
+    · exact h.data ga
+    · simpa using ga
+  · intro l hl
+    rcases sw_or ge with ge | ge
+    · exact h.sameEntity ge l hl
+    · rw [hl] at ge; simpa using ge
 
 theorem EdgeDelOkD.guarded {d : Defects} {s : Inst} {room : Nat} {r : InEdgeDel} (h : EdgeDelOkD d s room r)
-    (g : edgeDelGuard s room r = true) : EdgeDelOk s room r := by
-  unfold edgeDelGuard at g
-  simp only [Bool.and_eq_true, decide_eq_true_eq, Bool.not_eq_true'] at g
-  refine ⟨h.sig, g.1.2, h.known, g.1.1, ?_, h.right⟩
-  intro l hl
-  have := g.2; unfold edgeDelSourceOk at this; rw [hl] at this
-  simpa using this
+    (g : edgeDelGuardD d s room r = true) : EdgeDelOk s room r := by
+  unfold edgeDelGuardD at g
+  simp only [Bool.and_eq_true] at g
+  obtain ⟨⟨ga, gr⟩, ge⟩ := g
+  refine ⟨h.sig, ?_, h.known, ?_, ?_, h.right⟩
+  · rcases sw_or gr with gr | gr
+    · exact h.inRoom gr
+    · simpa using gr
+  · rcases sw_or ga with ga | ga
+    · exact h.data ga
+    · simpa using ga
+  · intro l hl
+    rcases sw_or ge with ge | ge
+    · exact h.source ge l hl
+    · unfold edgeDelSourceOk at ge; rw [hl] at ge
+      simpa using ge
 
 theorem EdgeOkD.guarded {d : Defects} {s : Inst} {room : Nat} {prev : Option EdgeRow} {e : InEdge}
-    {others : List EdgeRow} (h : EdgeOkD d s room prev e) (g : edgeGuard s room others e = true)
+    {others : List EdgeRow} (h : EdgeOkD d s room prev e) (g : edgeGuardD d s room others e = true)
     (hp : ∀ p, prev = some p → edgeKeyEq e.row p = true ∧ p ∈ others) : EdgeOk s room prev e := by
-  unfold edgeGuard at g
-  simp only [Bool.and_eq_true, List.all_eq_true, Bool.or_eq_true, Bool.not_eq_true', decide_eq_true_eq] at g
+  unfold edgeGuardD at g
+  simp only [Bool.and_eq_true] at g
   obtain ⟨⟨ga, gs⟩, go⟩ := g
-  refine ⟨h.sig, h.known, ga, ?_, ?_⟩
-  · unfold edgeSourceOk at gs
-    split at gs
-    · next l hl =>
-      simp only [Bool.and_eq_true, decide_eq_true_eq] at gs
-      exact ⟨l, hl, gs.1, gs.2⟩
-    · cases gs
+  refine ⟨h.sig, h.known, ?_, ?_, ?_⟩
+  · rcases sw_or ga with ga | ga
+    · exact h.data ga
+    · simpa using ga
+  · rcases sw_or gs with gs | gs
+    · exact h.source gs
+    · unfold edgeSourceOk at gs
+      split at gs
+      · next l hl =>
+        simp only [Bool.and_eq_true, decide_eq_true_eq] at gs
+        exact ⟨l, hl, gs.1, gs.2⟩
+      · cases gs
   · have hr := h.right
-    have hneed : needOn (prev.map (·.key)) e.row.key = RightType.mutateSelf := by
-      cases hprev : prev with
-      | none => rfl
-      | some p =>
-        obtain ⟨hk, hm⟩ := hp p hprev
-        rcases go p hm with h1 | h1
-        · rw [hk] at h1; cases h1
-        · simp [needOn, needRight, h1]
-    rw [hneed]
-    split at hr
-    · exact hr
-    · rw [hneed] at hr; exact hr
+    rcases sw_or go with go | go
+    · rw [go] at hr; exact hr
+    · simp only [List.all_eq_true, Bool.or_eq_true, Bool.not_eq_true', decide_eq_true_eq] at go
+      have hneed : needOn (prev.map (·.key)) e.row.key = RightType.mutateSelf := by
+        cases hprev : prev with
+        | none => rfl
+        | some p =>
+          obtain ⟨hk, hm⟩ := hp p hprev
+          rcases go p hm with h1 | h1
+          · rw [hk] at h1; cases h1
+          · simp [needOn, needRight, h1]
+      rw [hneed]
+      split at hr
+      · exact hr
+      · rw [hneed] at hr; exact hr
+
+/-- with every switch off the guards hold for every record -/
+theorem nodeGuardD_none (s : Inst) (n : InNode) : nodeGuardD Defects.none s n = true := by
+  unfold nodeGuardD; cases localRow s.nodes n.row.id <;> simp [Defects.none]
+theorem edgeGuardD_none (s : Inst) (room : Nat) (o : List EdgeRow) (e : InEdge) : edgeGuardD Defects.none s room o e = true := by
+  simp [edgeGuardD, Defects.none]
+theorem nodeDelGuardD_none (s : Inst) (room : Nat) (r : InNodeDel) : nodeDelGuardD Defects.none s room r = true := by
+  simp [nodeDelGuardD, Defects.none]
+theorem edgeDelGuardD_none (s : Inst) (room : Nat) (r : InEdgeDel) : edgeDelGuardD Defects.none s room r = true := by
+  simp [edgeDelGuardD, Defects.none]
 
 end Discret.Ingest
